@@ -115,6 +115,41 @@ func runC04(cfg *hx.Config) {
 			}
 		}
 	}
+	// long inputs: valid documents with 63..130 array items / map entries / sibling records, their truncations at a few
+	// points and single-byte edits (a reader must not depend on how many items an input has)
+	for _, n := range []int{63, 64, 65, 66, 129} {
+		strs, maps, inners := []*Val{}, []*Val{}, []*Val{}
+		for i := 0; i < n; i++ {
+			strs = append(strs, &Val{K: "str", S: fmt.Sprintf("s%d", i)})
+			maps = append(maps, &Val{K: "map", Keys: []string{"k"}, Items: []*Val{{K: "long", Z: int64(i)}}})
+			inners = append(inners, &Val{K: "rec", Fields: []*Val{{K: "int", Z: int64(i)}, nil}})
+		}
+		v := &Val{K: "rec", Fields: []*Val{{K: "arr", Items: strs}, {K: "map"}, {K: "map", Keys: []string{"k"}, Items: []*Val{{K: "arr", Items: inners}}}, {K: "arr", Items: maps}, nil, nil}}
+		ptr := reflect.New(registry["Coll"])
+		schema.toGo(ref("Coll"), v, ptr.Elem())
+		for _, f := range []int{0, 2, 4} {
+			out, oc := encode(ptr, f, nil)
+			if oc.Class != "ok" {
+				continue
+			}
+			c := newCase("c04", "Coll", schema.coqTy(ref("Coll")))
+			c.desc.Note = fmt.Sprintf("long-%d", n)
+			ins := []string{out, out[:len(out)/2], out[:len(out)-1], out[:len(out)-2], out + ")", out[1:]}
+			for k := 0; k < 4; k++ {
+				p := r.Intn(len(out))
+				b := []byte(out)
+				b[p] = "(),:'%"[r.Intn(6)]
+				ins = append(ins, string(b))
+			}
+			for _, in := range ins {
+				hostile(c, "Coll", f, in, rep)
+			}
+			rep.Count("long-inputs")
+			if f != 0 {
+				sh.Add(c.coq(), c.describe())
+			}
+		}
+	}
 	sh.Close()
 	rep.Shards = sh.Files
 	rep.Write(cfg.Out)
